@@ -497,6 +497,7 @@ pub fn gen_energy(r: &mut Rng, w: &mut World) {
             battery_unit: r.pick(&[None, None, None, Some("gallons_gasoline"), Some("gallons_diesel")]).map(|s| s.to_string()),
             ideal_rate_configured: r.chance(0.35),
             model_units: None,
+            interp_bins: None,
         });
     }
     // the units a vehicle's model is declared in (a stream of its own: the other knobs stay as they were)
